@@ -801,11 +801,14 @@ class TimedStore(typing.Generic[KT]):
         callback(entry, address)
 
     def stop_all_for_address(self, address: _T_SOCKADDR) -> None:
-        for entry, (callback, handle) in self.store[address].items():
+        entries = list(self.store[address].items())
+        self.store[address].clear()
+        for entry, (callback, handle) in entries:
             if handle:
                 handle.cancel()
-            asyncio.get_event_loop().call_soon(callback, entry, address)
-        self.store[address].clear()
+            # must be called immediately, like in stop(): a deferred notification could
+            # be overtaken by the notification for a new entry with the same key
+            callback(entry, address)
 
     def stop_all(self) -> None:
         for addr in self.store.keys():
